@@ -313,3 +313,40 @@ func ordered(c *core.Ctx, fn *ssa.Function, first, second *types.Func) bool {
 func constInt(k *types.Const) (int64, bool) {
 	return constant.Int64Val(constant.ToInt(k.Val()))
 }
+
+// performsCalls returns the call instructions in fn that perform target: direct calls, and calls of same-package helpers that call
+// target on every path to a return (a wrapper counts as the operation), up to the given depth.
+func performsCalls(fn *ssa.Function, target *types.Func, depth int) []ssa.CallInstruction {
+	out := core.CallsIn(fn, target)
+	if depth <= 0 {
+		return out
+	}
+	for _, ci := range core.AllCalls(fn) {
+		callee := ci.Common().StaticCallee()
+		if callee == nil || callee.Blocks == nil || callee.Pkg != fn.Pkg || callee == fn {
+			continue
+		}
+		inner := performsCalls(callee, target, depth-1)
+		if len(inner) == 0 {
+			continue
+		}
+		// every return of the helper is preceded by one of them
+		var avoid []*ssa.BasicBlock
+		for _, ic := range inner {
+			avoid = append(avoid, ic.Block())
+		}
+		must := true
+		for _, r := range core.Returns(callee) {
+			if in(avoid, r.Block()) {
+				continue
+			}
+			if core.CanReach(callee.Blocks[0], r.Block(), avoid...) {
+				must = false
+			}
+		}
+		if must {
+			out = append(out, ci)
+		}
+	}
+	return out
+}
